@@ -94,6 +94,18 @@ XfIndex(c) == IF c.s < 0 THEN 0 ELSE c.s                    \* s defaults to 0 (
 ValidStyle(c, xfs) == XfIndex(c) < Len(xfs)
 DecodeFmt(c, xfs) == xfs[XfIndex(c) + 1]
 
+(* ---- hyperlinks (18.3.1.47 hyperlink) ------------------------------------------------ *)
+(* raw link [ext, val, hasloc, loc, tip]: ext = the element carries r:id and val is the Target of that relationship;
+   hasloc / loc = the location attribute; tip = the tooltip attribute ("" if absent).
+   With r:id the target of the link is the relationship's Target (location then only names a place inside it);
+   with location alone the target is the location itself, a place in this workbook. *)
+LinkUrl(h) == IF h.ext THEN h.val ELSE h.loc
+LinkIsPlace(h) == ~h.ext
+(* whether a link is "a place in this workbook" is only a yes/no of the link as a whole when it has one of the two
+   attributes: an external target with a fragment (both) is not expressible as such a flag *)
+LinkPlaceDecided(h) == ~(h.ext /\ h.hasloc)
+ValidLink(h) == h.ext \/ h.hasloc
+
 ValidCell(c, nsst, xfs, m) == c.t \in CellTypes /\ ValidValue(c, nsst) /\ ValidFormula(c, m) /\ ValidStyle(c, xfs)
 DecodeCell(c, sst, xfs, m) == [val |-> DecodeValue(c, sst), frm |-> DecodeFormula(c, m), fmt |-> DecodeFmt(c, xfs)]
 
